@@ -16,62 +16,116 @@ LOOPS = "net::EventLoops"
 
 # ------------------------------------------------------------------ C21 machine
 def _steps(f, b, w, path, conds):
-    """Translate a path into abstract steps; returns a list of alternatives (a call whose result is returned as is
-    stands for both of its outcomes)."""
+    """Translate a path into abstract steps by interpreting it with value provenance: every OS call (register /
+    reregister / deregister / a nested del_event) gets a number, its `Result` is followed through moves, `?`
+    (Try::branch), `Ok(())` re-wraps and `match`es, and the arm the path takes at a switch on such a value fixes that
+    call's outcome -- however the author spelled the propagation (`?`, `or_else`, `match`, a bound `outcome`).
+    Returns the list of alternatives (a call whose result nothing on the path inspects stands for both outcomes);
+    [] when the path is infeasible (it takes the `Err` arm of a value it built as `Ok(())`)."""
     du = w.du
-    tries = [c for c in conds if c[0] == "variant" and set(c[2]) <= {"Continue", "Break"}]
-    qi = 0
+    path = list(path)
+    env = {}          # local -> ("res", k) | ("cf", k) | ("known", "Ok"|"Err")
+    calls = []        # [kind, interest, res]
     steps = []
     interest = None
-    pending_os = None
-    for x in path:
-        t = b.blocks[x]["term"]
-        if t["k"] != "call":
-            continue
-        c = norm(t.get("callee") or "")
-        o = norm(t.get("orig") or "")
-        if c == "dashmap::DashSet::contains":
-            st = REC.get(static_of(b, du, t["args"][0]))
-            val = outcome_on_path(b, du, list(path), x)
-            if st and val is not None:
-                steps.append(("test", st, val))
-        elif o.startswith("net::selector::Interest::"):
-            interest = {"read": "r", "write": "w", "read_and_write": "rw"}.get(o.rsplit("::", 1)[1])
-        elif c in (SEL + "::register", SEL + "::reregister", SEL + "::deregister"):
-            if pending_os and pending_os[0] in ("register", "reregister") and c != SEL + "::deregister":
-                # a second OS call before the first one's result was propagated: the fallback of `a().or_else(|_| b())`
-                pending_os[2] = c.rsplit("::", 1)[1]
+    for idx, x in enumerate(path):
+        blk = b.blocks[x]
+        for st_ in blk["stmts"]:
+            if st_["k"] != "assign":
+                continue
+            l = st_["lhs"]["l"]
+            if st_["lhs"]["proj"]:
+                env.pop(l, None)
+                continue
+            rv = st_["rhs"]
+            src = rv["a"]["p"]["l"] if rv["k"] == "use" and rv["a"]["k"] in ("copy", "move") and not rv["a"]["p"]["proj"] else None
+            if src is not None and src in env:
+                env[l] = env[src]
+            elif rv["k"] == "agg" and norm(rv.get("adt") or "") == "std::result::Result":
+                vn = f.variant_by_discr(rv["adt"], rv["variant"]) if not isinstance(rv["variant"], str) else rv["variant"]
+                env[l] = ("known", vn if vn in ("Ok", "Err") else ("Ok" if str(rv["variant"]) == "0" else "Err"))
             else:
-                pending_os = [c.rsplit("::", 1)[1], interest if "deregister" not in c else None, False]
-        elif c == "std::result::Result::or_else" and pending_os:
-            # fallback closure that was not spliced: which OS call does it make?
-            for cb in f.closures_of(getattr(b, "origin", b)):
-                for (_y, tt) in cb.calls():
-                    cc = norm(tt.get("callee") or "")
-                    if cc in (SEL + "::register", SEL + "::reregister"):
-                        pending_os[2] = cc.rsplit("::", 1)[1]
-        elif c.endswith("Try>::branch"):
-            res = tries[qi][2] if qi < len(tries) else ("?",)
-            qi += 1
-            if pending_os:
-                steps.append(("os", pending_os[0], pending_os[1], pending_os[2], "ok" if res == ("Continue",) else "err"))
-                pending_os = None
-            else:
-                steps.append(("try", "ok" if res == ("Continue",) else "err"))
-        elif c in ("dashmap::DashSet::insert", "dashmap::DashSet::remove"):
-            st = REC.get(static_of(b, du, t["args"][0]))
-            if st:
-                steps.append(("rec", st, "add" if c.endswith("insert") else "del"))
-        elif c == SEL + "::del_event" and getattr(b, "origin", b).npath != SEL + "::del_event":
-            pending_os = ["call:del_event", None, False]
-    if pending_os:
-        # `return self.del_event(fd)` / a tail call: the caller's outcome is the callee's
-        return [steps + [("os", pending_os[0], pending_os[1], pending_os[2], r)] for r in ("ok", "err")]
-    return [steps]
+                env.pop(l, None)
+        t = blk["term"]
+        if t["k"] == "call":
+            c = norm(t.get("callee") or "")
+            o = norm(t.get("orig") or "")
+            dl = t["dest"]["l"] if not t["dest"]["proj"] else None
+            a0 = t["args"][0] if t["args"] else None
+            a0l = a0["p"]["l"] if a0 is not None and a0["k"] in ("copy", "move") and not a0["p"]["proj"] else None
+            val = None
+            if c == "dashmap::DashSet::contains":
+                rec = REC.get(static_of(b, du, t["args"][0]))
+                v = outcome_on_path(b, du, path, x)
+                if rec and v is not None:
+                    steps.append(("test", rec, v))
+            elif o.startswith("net::selector::Interest::"):
+                interest = {"read": "r", "write": "w", "read_and_write": "rw"}.get(o.rsplit("::", 1)[1])
+            elif c in (SEL + "::register", SEL + "::reregister", SEL + "::deregister"):
+                calls.append([c.rsplit("::", 1)[1], interest if "deregister" not in c else None, None])
+                steps.append(("os", len(calls) - 1))
+                val = ("res", len(calls) - 1)
+            elif c == SEL + "::del_event" and getattr(b, "origin", b).npath != SEL + "::del_event":
+                calls.append(["call:del_event", None, None])
+                steps.append(("os", len(calls) - 1))
+                val = ("res", len(calls) - 1)
+            elif c == "std::result::Result::or_else" and a0l in env and env[a0l][0] == "res":
+                # a fallback closure that was not spliced: `a().or_else(|_| b())` -- b runs iff a failed; the combined
+                # value is a's on success and b's otherwise.  Modelled as one compound call.
+                k = env[a0l][1]
+                for cb in f.closures_of(getattr(b, "origin", b)):
+                    for (_y, tt) in cb.calls():
+                        cc = norm(tt.get("callee") or "")
+                        if cc in (SEL + "::register", SEL + "::reregister"):
+                            calls[k] = [calls[k][0] + "+" + cc.rsplit("::", 1)[1], calls[k][1], None]
+                val = ("res", k)
+            elif c.endswith("Try>::branch") and a0l in env:
+                v = env[a0l]
+                val = ("cf", v[1]) if v[0] == "res" else (("knowncf", v[1]) if v[0] == "known" else None)
+            elif c.endswith("FromResidual>::from_residual") or c.endswith("FromResidual<std::result::Result>>::from_residual"):
+                val = ("known", "Err")
+            elif c in ("dashmap::DashSet::insert", "dashmap::DashSet::remove"):
+                rec = REC.get(static_of(b, du, t["args"][0]))
+                if rec:
+                    steps.append(("rec", rec, "add" if c.endswith("insert") else "del"))
+            if dl is not None:
+                if val is not None:
+                    env[dl] = val
+                else:
+                    env.pop(dl, None)
+        elif t["k"] == "switch" and idx + 1 < len(path):
+            si = switch_info(b, du, x)
+            if si["kind"] == "discr" and not si["place"]["proj"] and si["place"]["l"] in env:
+                v = env[si["place"]["l"]]
+                nxt = path[idx + 1]
+                names = [n for n, bb in si["arms"].items() if bb == nxt]
+                if not names and nxt == t["otherwise"]:
+                    names = list(si.get("rest") or [])
+                names = set(names)
+                if v[0] in ("res", "cf") and len(names) == 1:
+                    nm = next(iter(names))
+                    res = {"Ok": "ok", "Err": "err", "Continue": "ok", "Break": "err"}.get(nm)
+                    if res is not None:
+                        if calls[v[1]][2] is not None and calls[v[1]][2] != res:
+                            return []
+                        calls[v[1]][2] = res
+                elif v[0] == "known" and names and v[1] not in names:
+                    return []
+                elif v[0] == "knowncf" and names and {"Ok": "Continue", "Err": "Break"}[v[1]] not in names:
+                    return []
+    # alternatives for calls whose outcome the path never inspects
+    alts = [[]]
+    for k, cl in enumerate(calls):
+        alts = [a + [r] for a in alts for r in ((cl[2],) if cl[2] is not None else ("ok", "err"))]
+    out = []
+    for a in alts:
+        out.append([("os", calls[s_[1]][0], calls[s_[1]][1], a[s_[1]]) if s_[0] == "os" else s_ for s_ in steps])
+    return out
 
 
-def _os_apply(kind, interest, fallback, os):
-    """Kernel model: register fails if already registered, reregister/deregister fail if not registered."""
+def _os_apply(kind, interest, os):
+    """Kernel model: register fails if already registered, reregister/deregister fail if not registered.  A compound
+    `a+b` (un-spliced `a().or_else(|_| b())`) succeeds when a or, failing that, b succeeds."""
     def one(k, osv):
         if k == "register":
             return (False, osv) if osv else (True, interest)
@@ -80,9 +134,11 @@ def _os_apply(kind, interest, fallback, os):
         if k == "deregister":
             return (True, "") if osv else (False, osv)
         return (False, osv)
-    ok, o2 = one(kind, os)
-    if not ok and fallback:
-        ok, o2 = one(fallback, os)
+    ok, o2 = False, os
+    for k in kind.split("+"):
+        ok, o2 = one(k, os)
+        if ok:
+            break
     return ok, o2
 
 
@@ -95,7 +151,7 @@ def machine_rule(run, f, rid):
             continue
         w = PathWalker(b)
         paths = w.walk(0, lambda bid, t: ("return",) if t["k"] == "return" else None)
-        ops[nm] = [(st, p) for (p, c, s) in paths for st in _steps(f, b, w, p, c)]
+        ops[nm] = [(st, p) for (p, c, s_) in paths for st in _steps(f, b, w, p, c)]
         run.count("paths_or_states", len(paths))
 
     def union(R, W):
@@ -116,7 +172,7 @@ def machine_rule(run, f, rid):
                         feasible = False
                         break
                 elif st[0] == "os":
-                    kind, interest, fallback, res = st[1], st[2], st[3], st[4]
+                    kind, interest, res = st[1], st[2], st[3]
                     if kind == "call:del_event":
                         subs = simulate("del_event", (R, W, OS), depth + 1) if depth < 2 else []
                         subs = [s for s in subs if (s[3] is False) == (res == "ok")]
@@ -124,21 +180,24 @@ def machine_rule(run, f, rid):
                             feasible = False
                             break
                         R, W, OS = subs[0][0], subs[0][1], subs[0][2]
-                        if res == "err":
-                            failed = True
+                        failed = res == "err"
                         continue
-                    ok, os2 = _os_apply(kind, interest, fallback, OS)
+                    ok, os2 = _os_apply(kind, interest, OS)
                     if res == "ok":
                         if not ok:
                             feasible = False     # the model says this call fails from here; an `ok` path is infeasible
                             break
                         OS = os2
+                        failed = False           # a fallback that succeeded makes up for the attempt before it
                     else:
-                        # failure for an external reason (EBADF, EPERM ...): OS unchanged
+                        # the model agrees (e.g. reregister of an unregistered fd) or an external reason (EBADF, EPERM ...):
+                        # either way the OS state is unchanged
                         failed = True
                 elif st[0] == "rec":
                     if failed is False and not any(s[0] == "os" for s in steps[:steps.index(st)]) and any(s[0] == "os" for s in steps):
                         note = "record %s changed before the OS call" % st[1]
+                    if failed:
+                        note = "record %s changed although the OS call before it failed" % st[1]
                     if st[1] == "R":
                         R = st[2] == "add"
                     else:
